@@ -307,9 +307,10 @@ class C18(Check):
                 if cb0 is not None:
                     with cb0.lock:
                         log0 = list(cb0.log)
-                    if len(log0) != n0:
-                        out.violate(dict(sig, kind="earlier-callback-gets-later-events"), observed={"before": n0, "after": len(log0)}, expected="unchanged")
-                    self._judge(out, dict(sig, which="prior"), log0[:n0], model, names, names, folder_of)
+                    # (the first reporter may still have been delivering when the second extraction began - that is allowed until
+                    # close(); what is not allowed is that the second extraction's events end up here: the complete log of the
+                    # first callback must be exactly one well-formed account of one extraction)
+                    self._judge(out, dict(sig, which="prior"), log0, model, names, names, folder_of)
         finally:
             cb.release.set()
             if orig_thread is not None:
